@@ -40,11 +40,12 @@ def insertNS (p : Plane) (start size : Nat) (v : W) : Plane :=
 def PreNS (p : Plane) (start size : Nat) : Prop := start % 64 + size ≤ 64 ∧ (size ≠ 0 → start / 64 < p.length)
 instance (p : Plane) (s n : Nat) : Decidable (PreNS p s n) := by unfold PreNS; infer_instance
 
-/-- `extractNonStraddling` (asserts: `start % 64 + size ≤ 64`, `start / 64 < words`) -/
+/-- `extractNonStraddling` (asserts: `start % 64 + size ≤ 64` and, unless `size = 0` (50cb7cb: a read of zero bits returns 0 without
+    touching the storage), `start / 64 < words`) -/
 def extractNS (p : Plane) (start size : Nat) : W :=
   bitfieldExtract (wget p (start/64)) (start % 64) size
 
-def PreXNS (p : Plane) (start size : Nat) : Prop := start % 64 + size ≤ 64 ∧ start / 64 < p.length
+def PreXNS (p : Plane) (start size : Nat) : Prop := start % 64 + size ≤ 64 ∧ (size ≠ 0 → start / 64 < p.length)
 instance (p : Plane) (s n : Nat) : Decidable (PreXNS p s n) := by unfold PreXNS; infer_instance
 
 /-- `extract(plane, offset, size)` (assert: `size ≤ 64`) -/
@@ -54,9 +55,9 @@ def extract (p : Plane) (offset size : Nat) : W :=
   let val := if wo + size > 64 then val ||| (wget p (offset/64 + 1) <<< (64 - wo)) else val
   val &&& bitMaskRange 0 size
 
-/-- what `extract` needs to stay in bounds -/
+/-- what `extract` needs to stay in bounds (239873e: a read of zero bits touches nothing) -/
 def PreX (p : Plane) (offset size : Nat) : Prop :=
-  size ≤ 64 ∧ offset / 64 < p.length ∧ (offset % 64 + size > 64 → offset / 64 + 1 < p.length)
+  size ≤ 64 ∧ (size ≠ 0 → offset / 64 < p.length) ∧ (offset % 64 + size > 64 → offset / 64 + 1 < p.length)
 instance (p : Plane) (s n : Nat) : Decidable (PreX p s n) := by unfold PreX; infer_instance
 
 /-- `insert(plane, offset, size, value)` (assert: `size ≤ 64`) -/
